@@ -9,6 +9,7 @@
 
 #include <occa/defines.hpp>
 #include <occa/types.hpp>
+#include <occa/utils/hash.hpp>
 #include <occa/internal/lang/macro.hpp>
 #include <occa/internal/lang/token.hpp>
 #include <occa/internal/lang/stream.hpp>
@@ -70,6 +71,8 @@ namespace occa {
       occa::json settings;
 
       strToBoolMap dependencies;
+      // Hash of each dependency's contents as they were read for this translation
+      std::map<std::string, hash_t> dependencyHashes;
       int warnings, errors;
       //================================
 
@@ -130,6 +133,8 @@ namespace occa {
       void removeSourceDefine(const std::string &name);
 
       strVector getDependencyFilenames() const;
+
+      hash_t getDependencyHash(const std::string &filename) const;
       //================================
 
       void loadTokenizer();
